@@ -210,6 +210,10 @@ def impl(t, case):
 
     from pyoak.match.xpath import ASTXpath
 
+    from .c17 import probe_redefined_class
+    bad = probe_redefined_class()
+    if bad:
+        return Con("ProbeViolation", bad)
     u = universe_from_json(case["opts"]["universe"])
     u.load()
     gc.collect()
